@@ -36,8 +36,8 @@ theorem mem_eraseDups_keys_of_get? {m : AMap UUID Row} {u : UUID} {r : Row} (h :
     index. -/
 theorem check_passes_no_duplicate (σ : DbModel) (db : Database) (tx : Txn) (h : checkIndexes σ db tx = false)
     (t : String) (tc : Cache) (htc : (t, tc) ∈ tx.cache) (u : UUID) (row : Row) (hu : get? tc.rows u = some row) :
-    (∀ ix ∈ tc.ixs, ix.spec.isSchema = true → ∀ u' row', u' ≠ u → get? tc.rows u' = some row' →
-        idxVal ix.spec row' ≠ idxVal ix.spec row) ∧
+    (∀ s ∈ σ.specsOf t, s.isSchema = true → ∀ u' row', u' ≠ u → get? tc.rows u' = some row' →
+        idxVal s row' ≠ idxVal s row) ∧
     (∀ ix ∈ ((get? db t).getD (Cache.empty [])).ixs, ix.spec.isSchema = true → ∀ e erow, e ≠ u → e ∉ tx.deleted →
         get? tc.rows e = none → get? ((get? db t).getD (Cache.empty [])).rows e = some erow →
         idxVal ix.spec erow ≠ idxVal ix.spec row) := by
@@ -70,8 +70,8 @@ theorem check_passes_no_duplicate (σ : DbModel) (db : Database) (tx : Txn) (h :
 theorem duplicate_rejected (σ : DbModel) (db : Database) (tx : Txn)
     (t : String) (tc : Cache) (htc : (t, tc) ∈ tx.cache) (u : UUID) (row : Row) (hu : get? tc.rows u = some row)
     (hdup :
-      (∃ ix ∈ tc.ixs, ix.spec.isSchema = true ∧ ∃ u' row', u' ≠ u ∧ get? tc.rows u' = some row' ∧
-        idxVal ix.spec row' = idxVal ix.spec row) ∨
+      (∃ s ∈ σ.specsOf t, s.isSchema = true ∧ ∃ u' row', u' ≠ u ∧ get? tc.rows u' = some row' ∧
+        idxVal s row' = idxVal s row) ∨
       (∃ ix ∈ ((get? db t).getD (Cache.empty [])).ixs, ix.spec.isSchema = true ∧ ∃ e erow, e ≠ u ∧ e ∉ tx.deleted ∧
         get? tc.rows e = none ∧ get? ((get? db t).getD (Cache.empty [])).rows e = some erow ∧
         idxVal ix.spec erow = idxVal ix.spec row)) :
@@ -100,17 +100,16 @@ theorem duplicate_rejected (σ : DbModel) (db : Database) (tx : Txn)
     final view of the table is duplicate-free. -/
 theorem final_view_unique (σ : DbModel) (db : Database) (tx : Txn) (h : checkIndexes σ db tx = false)
     (t : String) (tc : Cache) (htc : (t, tc) ∈ tx.cache)
-    (hspecs : ∀ s, (∃ ix ∈ tc.ixs, ix.spec = s) ↔ (∃ ix ∈ ((get? db t).getD (Cache.empty [])).ixs, ix.spec = s))
+    (hspecs : ∀ s, s ∈ σ.specsOf t → s.isSchema = true → (∃ ix ∈ ((get? db t).getD (Cache.empty [])).ixs, ix.spec = s))
     (hdb : ∀ ix ∈ ((get? db t).getD (Cache.empty [])).ixs, ix.spec.isSchema = true → ∀ a b ra rb, a ≠ b →
       get? ((get? db t).getD (Cache.empty [])).rows a = some ra → get? ((get? db t).getD (Cache.empty [])).rows b = some rb →
       idxVal ix.spec ra ≠ idxVal ix.spec rb)
-    (s : Spec) (hs : s.isSchema = true) (hsin : ∃ ix ∈ tc.ixs, ix.spec = s)
+    (s : Spec) (hs : s.isSchema = true) (hsin : s ∈ σ.specsOf t)
     (a b : UUID) (ra rb : Row) (hab : a ≠ b)
     (ha : FinalView tx tc ((get? db t).getD (Cache.empty [])) a = some ra)
     (hb : FinalView tx tc ((get? db t).getD (Cache.empty [])) b = some rb) :
     idxVal s ra ≠ idxVal s rb := by
-  obtain ⟨ixt, hixt, hst⟩ := hsin
-  obtain ⟨ixd, hixd, hsd⟩ := (hspecs s).mp ⟨ixt, hixt, hst⟩
+  obtain ⟨ixd, hixd, hsd⟩ := hspecs s hsin hs
   unfold FinalView at ha hb
   cases hta : get? tc.rows a with
   | some r1 =>
@@ -119,8 +118,7 @@ theorem final_view_unique (σ : DbModel) (db : Database) (tx : Txn) (h : checkIn
     cases htb : get? tc.rows b with
     | some r2 =>
       rw [htb] at hb; cases hb
-      have := p1 ixt hixt (by rw [hst]; exact hs) b rb (fun e => hab e.symm) htb
-      rw [hst] at this
+      have := p1 s hsin hs b rb (fun e => hab e.symm) htb
       exact fun e => this e.symm
     | none =>
       rw [htb] at hb
